@@ -15,7 +15,7 @@ RULE = ("Generated: state type (3) x n 1..3 (thorough: ..4) x nh 1..4 x na 1..3,
         "flattened in rbm.parameters() order. Oracle B: batch positive phase = mean of 1-D per-row gradients = invariant under "
         "permutation and weighted split. Oracle C: every public gradient method is callable and agrees. Non-trivial = "
         "(complex/density) >= 2 distinct bases one containing Y, or (positive) >= 2 distinct rows; all biases non-zero.")
-RULE_EXT = ('Extended as built: single-basis batches of 100-300 rows, n = 8, 9 states, polarised parameter regimes with rare outcomes (rows excluded only by conditioning |sum terms|/sum|terms| < 1e-6, counted), bases passed as ndarray / list / str, gradients re-evaluated along an in-place history A -> B -> A, deprecated aliases.')
+RULE_EXT = ('Extended as built: single-basis batches of 100-300 rows, n = 8, 9 states, polarised parameter regimes with rare outcomes (rows excluded only by conditioning |sum terms|/sum|terms| < 1e-6, counted), bases passed as ndarray / list / str, gradients re-evaluated along an in-place history A -> B -> A, deprecated aliases. Rounds 5-6: user-added / overridden unitaries with user letters in measurement bases; load() of a file with other unitaries for the same letters, then gradients again; the bases=None route vs spelled-out all-Z bases; compute_batch_gradients(k, batch, batch) called directly (same tensor in both roles, replayed under the same seed); uniformly negative polarised biases with small compensating weights; num_aux = 0.')
 RULE = RULE + " " + RULE_EXT
 ASSUMPTIONS = ["parameter scale <= 2 (the gradient of -log p is ill-conditioned where p ~ 0)",
                "tolerance |g - g_ref| <= 1e-6*(1+max|g_ref|)", "CPU, float64"]
@@ -39,7 +39,12 @@ def cases(draw, tier):
     if polarised and not sc.get("large"):
         # value regime: strongly polarised amplitude network (visible biases of magnitude 12..30, either sign) - outcome probabilities
         # span many orders of magnitude WITHOUT cancellation, i.e. tiny but well-conditioned
-        sc["am"]["b"] = [draw(st.sampled_from([-1.0, 1.0])) * draw(st.floats(12.0, 30.0, allow_nan=False, width=64)) for _ in range(n)]
+        sign_mode = draw(st.sampled_from(["neg", "neg", "pos", "mixed"]))     # all negative: every unnormalised amplitude but one is tiny
+        sc["am"]["b"] = [{"neg": -1.0, "pos": 1.0}.get(sign_mode, draw(st.sampled_from([-1.0, 1.0]))) * draw(st.floats(12.0, 30.0, allow_nan=False, width=64)) for _ in range(n)]
+        if draw(st.booleans()):
+            # ... and nothing that compensates the visible biases (small weights and hidden biases): the unnormalised amplitudes themselves are tiny
+            shrink = lambda x: [shrink(y) for y in x] if isinstance(x, list) else x / (1.0 + abs(x))
+            sc["am"]["W"], sc["am"]["c"] = shrink(sc["am"]["W"]), shrink(sc["am"]["c"])
         sc["polarised"] = True
     N = draw(st.integers(1, 8))
     U01 = st.floats(0, 1, exclude_max=True, allow_nan=False, width=64)
